@@ -297,4 +297,18 @@ theorem payload_facts (c : Codec) (t : JVal) (hw : wfB t = true) (hn : noDupB t 
       rw [extract_after_patch c _ hr.1 _ _ _ hsn.1 hm0.1 ha0.1 live]
       exact hr.2
 
+theorem noNullsO_lookup : ∀ (kvs : List (String × JVal)) (k : String) (v : JVal),
+    noNullsO kvs = true → lookup k kvs = some v → noNullsB v = true := by
+  intro kvs
+  induction kvs with
+  | nil => intro k v _ h; simp [lookup] at h
+  | cons kv rest ih =>
+    intro k v hn h
+    obtain ⟨k', v'⟩ := kv
+    rw [noNullsO.eq_2, Bool.and_eq_true] at hn
+    by_cases hk : k' = k
+    · have : v' = v := by simpa [lookup, hk] using h
+      subst this; exact hn.1
+    · exact ih k v hn.2 (by simpa [lookup, hk] using h)
+
 end Koreo.R45
